@@ -488,7 +488,17 @@ namespace Pistache::Http
             }
 
             if (size == 0)
+            {
+                // last-chunk: the chunked body ends with the CRLF that closes the (empty)
+                // trailer part; the message is complete once that CRLF is there, and it
+                // belongs to this message, not to the next one on the connection
+                if (cursor.remaining() < 2)
+                    return Incomplete;
+                if (cursor.current() != '\r' || cursor.next() != '\n')
+                    throw std::runtime_error("Invalid chunked body, trailer fields are not supported");
+                cursor.advance(2);
                 return Final;
+            }
 
             StreamCursor::Token chunkData(cursor);
             const size_t available = cursor.remaining();
